@@ -5,6 +5,7 @@
 mod c01;
 mod c02;
 mod c03;
+mod c04;
 mod c05;
 mod c06;
 mod c07;
@@ -88,6 +89,7 @@ fn main() {
         "c01" => c01::run(&ctx),
         "c02" => c02::run(&ctx),
         "c03" => c03::run(&ctx),
+        "c04" => c04::run(&ctx),
         "c05" => c05::run(&ctx),
         "c06" => c06::run(&ctx),
         "c07" => c07::run(&ctx),
